@@ -314,6 +314,10 @@ func (v *injPolicy) WS(prev, next string, mayBeEmpty bool) string {
 	case "{{", "{%", "{{-", "{%-":
 		v.depth = 0
 	}
+	if i == v.at && ((prev == "not" && next == "in") || (prev == "is" && next == "not") || ((prev == "starts" || prev == "ends") && next == "with")) {
+		// inside a two-word operator: the first word alone is then the first offender, not the injected token
+		return base
+	}
 	if i == v.at && v.depthZeroOnly {
 		if v.depth != 0 || prev == "\"" || next == "\"" {
 			return base
